@@ -13,6 +13,7 @@ func init() {
 			{Name: "concurrent", Flavour: "race", TimeoutQ: m10, TimeoutT: m60, Weight: 6},
 			{Name: "api", Flavour: "plain", TimeoutQ: m10, TimeoutT: m60, Weight: 4},
 			{Name: "savewindow", Flavour: "plain", TimeoutQ: m10, TimeoutT: m60, Weight: 2},
+			{Name: "signal", Flavour: "plain", TimeoutQ: m10, TimeoutT: m60, Weight: 2},
 		},
 	}
 }
